@@ -166,6 +166,7 @@ func (tst *tsTable) TakeFileSnapshot(dst string) (success bool, err error) {
 			tst.fileSystem.MustRMAll(dst)
 		}
 	}()
+	verifPause("file-snapshot-pinned")
 
 	hasDiskParts := false
 	for _, pw := range snapshot.parts {
